@@ -35,6 +35,7 @@ Inductive stmt :=
 | SDefer (e : expr)
 | SVar (names : list string) (ty : string) (vals : list expr)
 | SBlock (l : list stmt)
+| SFuncDef (name : string) (params : list string) (body : list stmt)     (* name := func(params) R { body } *)
 | SOther (what : string).
 
 Record fn := {
